@@ -652,7 +652,7 @@ pub fn nested_candidates(ex: &Exec) -> Vec<EvId> {
     let mut v = vec![];
     for (s, st) in ex.subs.iter().enumerate() {
         let s = s as u16;
-        if st.over() || sending.contains(&s) {
+        if st.over() || (sending.contains(&s) && !cfg.self_reentrancy) {
             continue;
         }
         if !st.greeted {
